@@ -80,6 +80,11 @@ def _chain(draw):
 def _refs(draw):
     base = draw(progs.tables(min_rows=2, max_rows=6, ragged=False, extra=False, pad=False, blanks=False))
     cols = base["cols"]
+    # sparse columns: make sure some cells are really empty (a header reference lists them as '')
+    for r in base["records"][1:]:
+        for i, c in enumerate(cols):
+            if not c["dense"] and draw(st.integers(0, 2)) == 1:
+                r[i] = ""
     tables = [base]
     nruns = draw(st.integers(1, 3))
     for _ in range(nruns - 1):
@@ -106,7 +111,7 @@ def _refs(draw):
         dcols = [c for c in cols if c["dense"]]
         kc = draw(st.sampled_from(dcols))
         writers.append({"id": f"w{i}", "var": f"v{i}", "expr": e,
-                        "track_col": kc["name"], "hdr": draw(st.sampled_from(dcols))["name"]})
+                        "track_col": kc["name"], "hdr": draw(st.sampled_from(cols))["name"]})
     return {"shape": "refs", "tables": tables, "writers": writers}
 
 
